@@ -604,17 +604,43 @@ package gorm
 //@   may-panic fc
 //@   loop "for" invariant batch-size-in-range: 1 <= batchSize && batchSize <= old(batchSize)
 //@   loop "for" invariant handle-is-reusable: tx.clone > 0
-//@   loop "for" invariant conditions-form-one-and-group: noOrUnit(tx.Statement)
+//@   loop "for" entry-assert or-conditions-were-grouped: orSeen == 1 ==> regrouped == 1
 //@   loop "for" invariant only-full-batches-so-far: totalSize > 0 ==> (rowsAffected == batch * batchSize || rowsAffected + batchSize == totalSize)
 //@ # The key condition that moves the cursor (id > last id of the batch) is ANDed to the chain's conditions: with an OR
 //@ # unit among them it would bind to the last one only and the rows of the others would come back in every batch
-//@ # (finding F16). So the conditions are one AND group by the time the loop starts.
-//@ spec noOrUnit(stmt) = !has(stmt.Clauses, "WHERE") || !is(stmt.Clauses["WHERE"].Expression, clause.Where) || forall(k, 0, len(whereExprs(stmt)), !singleOr(whereExprs(stmt)[k]))
+//@ # (finding F16). So before the loop the conditions of the batch handle (tx) are examined - hasOrCondition finds an
+//@ # OR unit iff there is one - and, if one was found, replaced by one AND group; the cursor condition is added to that
+//@ # handle. That nothing called from the loop (Find on a derived chain, the callback) rewrites the WHERE list of tx is
+//@ # not decided here: it is C06 for Find and an assumption for the callback.
+//@ ghost orSeen regrouped
+//@ event call hasOrCondition
+//@   in gorm.(*DB).FindInBatches
+//@   do orSeen = ite(result, 1, 0)
+//@ event mapwrite Statement.Clauses
+//@   in gorm.(*DB).FindInBatches
+//@   do regrouped = 1
+//@ func hasOrCondition
+//@   tags C15
+//@   modifies nothing
+//@   loop 1 invariant no-or-unit-so-far: 0 <= iter && iter <= len(exprs) && forall(k, 0, iter, !singleOr(exprs[k]))
+//@   ensures none-found-means-there-is-none: !result ==> forall(k, 0, len(exprs), !singleOr(exprs[k]))
+//@   ensures found-means-there-is-one: result ==> exists(k, 0, len(exprs), singleOr(exprs[k]))
+//@ site batch-conditions-examined
+//@   match call gorm.hasOrCondition
+//@   in gorm.(*DB).FindInBatches
+//@   min-sites 1
+//@   entry orSeen == 0 && regrouped == 0
+//@   assert conditions-of-the-batch-handle: arg0 == whereExprs(tx.Statement) [C15]
+//@ site batch-conditions-grouped
+//@   match mapwrite Statement.Clauses
+//@   in gorm.(*DB).FindInBatches
+//@   min-sites 1
+//@   assert one-and-group-in-the-batch-handle: recv == tx.Statement && arg1 == "WHERE" && is(arg2.Expression, clause.Where) && len(arg2.Expression.(clause.Where).Exprs) == 1 && !is(arg2.Expression.(clause.Where).Exprs[0], clause.OrConditions) [C15]
 //@ site batch-cursor-condition
 //@   match call gorm.(*DB).Clauses
 //@   in gorm.(*DB).FindInBatches
 //@   min-sites 1
-//@   assert restricts-every-condition: arg0 == tx && noOrUnit(tx.Statement) [C15]
+//@   assert added-to-the-grouped-handle: arg0 == tx [C15]
 //@   assert key-greater-than-last-row: len(arg1) == 1 && is(arg1[0], clause.Gt) && arg1[0].(clause.Gt).Value == primaryValue [C15]
 //@ site batch-query-size
 //@   match call gorm.(*DB).Limit
